@@ -25,7 +25,11 @@ def int_lit(rng, v=None):
         return (("0x%x" if rng.random() < .5 else "0X%X") % v), v
     return "0" + oct(v)[2:], v
 
-def float_lit(rng):
+def float_lit(rng, small=False):
+    if small:
+        s = rng.choice(["%d.%d" % (rng.randint(0, 999), rng.randint(0, 99)), "%de%d" % (rng.randint(1, 99), rng.randint(0, 9)),
+                        "0.5", "1.25e-3", "2.5", "1e3"])
+        return s, float(s)
     k = rng.random()
     if k < 0.5:
         a, b = rng.randint(0, 999), rng.randint(0, 999)
@@ -58,9 +62,20 @@ def str_lit(rng, maxlen=12, body=None):
         elif k < 0.95:
             out += rng.choice(["é", "€", "😀", " ", "\u0085", "ż"]).encode()
         else:
-            out += bytes([rng.choice([0x80, 0xff, 0xc2, 0xe2, 0x01, 0x7f, 0x09])])
+            out += bytes([rng.choice([0x80, 0xff, 0xc2, 0xe2, 0x04, 0x7f, 0x09])])
     out += b'"'
     return bytes(out)
+
+def strip_markers(text):
+    """-> (plain text, [(offset in plain text, marker byte)])"""
+    out, marks = bytearray(), []
+    for b in text:
+        if b in (1, 2, 3):
+            marks.append((len(out), b))
+        else:
+            out.append(b)
+    return bytes(out), marks
+
 
 class Scope:
     def __init__(self, parent=None, block=False):
@@ -84,88 +99,124 @@ class Scope:
 
 class Gen:
     """types: 'int','float','str','bool','nil'"""
-    def __init__(self, rng, max_depth=4, names=None, allow_errors=0.05, parens=0.15):
+    def __init__(self, rng, max_depth=4, names=None, allow_errors=0.01, parens=0.15, small_floats=False):
         self.rng, self.max_depth, self.allow_errors, self.parens = rng, max_depth, allow_errors, parens
+        self.small_floats = small_floats
         self.names = names or ["a", "b", "c", "x", "y", "foo", "bar_baz", "_t", "Port", "n1"]
         self.types_used = {}
 
+    # precedence of the top operator of a generated expression (parse.go's ladder)
+    P_ASSIGN, P_OR, P_AND, P_NOT, P_EQ, P_CMP, P_TERM, P_FACTOR, P_UNARY, P_ATOM = 1, 2, 3, 4, 5, 6, 7, 8, 9, 10
+
     def paren(self, s):
+        """wrap a whole sub-expression: real parentheses with probability `parens`, and always an invisible
+        marker pair (bytes 01/02) telling the layout suite where redundant parentheses may be added.
+        s is (text, prec); the result is a text whose own top level is parenthesised or unchanged."""
         r = self.rng
+        txt, prec = s
         while r.random() < self.parens:
-            s = b"(" + s + b")"
-        return s
+            txt, prec = b"(" + txt + b")", self.P_ATOM
+        return (b"\x01" + txt + b"\x02", prec)
+
+    def wrap(self, e, need_gt=None, need_ge=None):
+        """parenthesise operand e=(text, prec) unless its precedence binds tighter than required"""
+        txt, prec = e
+        if need_gt is not None and prec <= need_gt:
+            return b"\x01(" + txt + b")\x02"
+        if need_ge is not None and prec < need_ge:
+            return b"\x01(" + txt + b")\x02"
+        return txt
+
+    def binl(self, l, op, r, prec):          # left-associative binary operator at level prec
+        return (self.wrap(l, need_ge=prec) + b" " + op + b" " + self.wrap(r, need_gt=prec), prec)
+
+    def binr(self, l, op, r, prec):          # and / or: the parser nests them to the right
+        return (self.wrap(l, need_gt=prec) + b" " + op + b" " + self.wrap(r, need_ge=prec), prec)
 
     def atom(self, ty, sc):
         r = self.rng
         vars_ = [k for k, t in sc.lookup_vars().items() if t == ty]
         flds = [k for k, t in sc.lookup_fields().items() if t == ty] if sc.depth() > 0 else []
         if (vars_ or flds) and r.random() < 0.4:
-            return r.choice(vars_ + flds).encode()
+            return (r.choice(vars_ + flds).encode(), self.P_ATOM)
         if ty == 'int':
-            return int_lit(r)[0].encode()
+            return (int_lit(r)[0].encode(), self.P_ATOM)
         if ty == 'float':
-            return float_lit(r)[0].encode()
+            return (float_lit(r, self.small_floats)[0].encode(), self.P_ATOM)
         if ty == 'str':
-            return str_lit(r)
+            return (str_lit(r), self.P_ATOM)
         if ty == 'bool':
-            return r.choice([b"true", b"false"])
-        return b"nil"
+            return (r.choice([b"true", b"false"]), self.P_ATOM)
+        return (b"nil", self.P_ATOM)
 
     def expr(self, ty, sc, d=0):
+        return self.expr2(ty, sc, d)[0]
+
+    def expr2(self, ty, sc, d=0):
+        """-> (text, precedence of its top operator); the generated tree IS the parse tree"""
         r = self.rng
         if r.random() < self.allow_errors:
             ty = r.choice(['int', 'float', 'str', 'bool', 'nil'])
         if d >= self.max_depth or r.random() < 0.25:
             return self.paren(self.atom(ty, sc))
-        E = lambda t: self.expr(t, sc, d + 1)
+        E = lambda t: self.expr2(t, sc, d + 1)
         num = lambda: r.choice(['int', 'float'])
         anyt = lambda: r.choice(['int', 'float', 'str', 'bool', 'nil'])
+        lit = lambda b: (b, self.P_ATOM)
+        def arith(a, b):
+            op = r.choice([b"+", b"-", b"*", b"/"])
+            rhs = E(b)
+            if op == b"/" and b == 'int' and r.random() < 0.9:
+                rhs = lit(int_lit(r, r.randint(1, 9))[0].encode())
+            return self.binl(E(a), op, rhs, self.P_FACTOR if op in (b"*", b"/") else self.P_TERM)
+        def unary(t):
+            op = r.choice([b"-", b"+"])
+            e = E(t)
+            return (op + (b" " if r.random() < .3 else b"") + self.wrap(e, need_ge=self.P_UNARY), self.P_UNARY)
         if ty == 'int':
             k = r.random()
             if k < 0.6:
-                op = r.choice([b"+", b"-", b"*", b"/"])
-                rhs = E('int')
-                if op == b"/" and r.random() < 0.9:
-                    rhs = self.paren(int_lit(r, r.randint(1, 9))[0].encode())
-                s = E('int') + b" " + op + b" " + rhs
+                s = arith('int', 'int')
             elif k < 0.75:
-                s = r.choice([b"-", b"+", b"- ", b"+ "]) + E('int')
+                s = unary('int')
             elif k < 0.85:
-                s = E('bool') + b" and " + E('int') if r.random() < .5 else E('int') + b" or " + E('int')
+                s = self.binr(E('int'), b"and", E('int'), self.P_AND) if r.random() < .5 else \
+                    self.binr(E('int'), b"or", E('int'), self.P_OR)
             else:
                 a = self.assign(ty, sc, d)
-                s = (b"(" + a + b")") if a else self.atom(ty, sc)
+                s = (a, self.P_ASSIGN) if a else self.atom(ty, sc)
         elif ty == 'float':
             k = r.random()
             if k < 0.6:
                 a, b = r.choice([('float', 'float'), ('int', 'float'), ('float', 'int')])
-                s = E(a) + b" " + r.choice([b"+", b"-", b"*", b"/"]) + b" " + E(b)
+                s = arith(a, b)
             elif k < 0.75:
-                s = r.choice([b"-", b"+"]) + E('float')
+                s = unary('float')
             else:
                 s = self.atom(ty, sc)
         elif ty == 'str':
             k = r.random()
             if k < 0.5:
-                s = E('str') + b" + " + E(r.choice(['str', 'str', 'int', 'float', 'nil']))
+                s = self.binl(E('str'), b"+", E(r.choice(['str', 'str', 'int', 'float', 'nil'])), self.P_TERM)
             elif k < 0.65:
-                s = E('str') + b" * " + self.paren(str(r.randint(0, 4)).encode())
+                s = self.binl(E('str'), b"*", lit(str(r.randint(0, 4)).encode()), self.P_FACTOR)
             elif k < 0.75:
-                s = E('str') + b" or " + E('str')
+                s = self.binr(E('str'), b"or", E('str'), self.P_OR)
             else:
                 s = self.atom(ty, sc)
         elif ty == 'bool':
             k = r.random()
             if k < 0.25:
-                s = E(anyt()) + r.choice([b" == ", b" != "]) + E(anyt())
+                s = self.binl(E(anyt()), r.choice([b"==", b"!="]), E(anyt()), self.P_EQ)
             elif k < 0.5:
                 t = r.choice(['num', 'str'])
                 a, b = (num(), num()) if t == 'num' else ('str', 'str')
-                s = E(a) + r.choice([b" < ", b" > ", b" <= ", b" >= "]) + E(b)
+                s = self.binl(E(a), r.choice([b"<", b">", b"<=", b">="]), E(b), self.P_CMP)
             elif k < 0.65:
-                s = b"not " + E(anyt())
+                s = (b"not " + self.wrap(E(anyt()), need_ge=self.P_NOT), self.P_NOT)
             elif k < 0.85:
-                s = E('bool') + r.choice([b" and ", b" or "]) + E('bool')
+                s = self.binr(E('bool'), b"and", E('bool'), self.P_AND) if r.random() < .5 else \
+                    self.binr(E('bool'), b"or", E('bool'), self.P_OR)
             else:
                 s = self.atom(ty, sc)
         else:
@@ -191,7 +242,7 @@ class Gen:
         ind = b"  " * indent
         k = r.random()
         ty = r.choice(['int', 'int', 'float', 'str', 'str', 'bool', 'nil'])
-        semi = b";" if r.random() < 0.15 else b""
+        semi = b";" if r.random() < 0.15 else b"\x03"      # 03 marks a place where ';' is optional and absent
         if k < 0.25:
             name = ident(r, self.names)
             if name in sc.vars and r.random() < 0.9:
@@ -238,6 +289,9 @@ class Gen:
             lines.append(b"bind " + bt.encode() + sel.encode() + b" -> " + tgt.encode() + semi)
 
     def program(self, nstmts=None):
+        return strip_markers(self.program_marked(nstmts))[0]
+
+    def program_marked(self, nstmts=None):
         r = self.rng
         sc = Scope()
         lines, budget = [], [8]
